@@ -47,6 +47,7 @@ func VH01b_stream() {
 		ref = append(ref, h...)
 		ref = append(ref, b...)
 	}
+	verif.Observe("wire", w.out, w.writes)
 	verif.Assert(verif.BytesEq(w.out, ref), "C15/framing/mangos-writes-reference-encoding")
 	verif.Reach("encoded")
 
@@ -64,6 +65,7 @@ func VH01b_stream() {
 		if err != nil {
 			return
 		}
+		verif.Observe("recv", got.Header, got.Body, r.rpos, r.reads)
 		want := append(append([]byte{}, sent[i].h...), sent[i].b...)
 		verif.Assert(len(got.Header) == 0, "C01/stream/no-header-from-transport")
 		verif.Assert(verif.BytesEq(got.Body, want), "C01/stream/bytes-identical")
@@ -100,6 +102,7 @@ func VH16a_prefix() {
 	a0 := verif.AllocBytes()
 	msg, err := rx.Recv()
 	a1 := verif.AllocBytes()
+	verif.Observe("prefix-recv", err, msg == nil, r.reads, r.rpos)
 	nprefix := 1
 	if ipc {
 		nprefix = 2
